@@ -48,7 +48,11 @@ struct layout_left::mapping {
     }
 
     template <typename OtherExtents>
-    explicit(extents_type::rank() > 0) constexpr mapping(layout_stride::mapping<OtherExtents> const&);
+        requires is_constructible_v<extents_type, OtherExtents>
+    explicit(extents_type::rank() > 0) constexpr mapping(layout_stride::mapping<OtherExtents> const& other) noexcept
+        : _extents{other.extents()}
+    {
+    }
 
     constexpr auto operator=(mapping const&) noexcept -> mapping& = default;
 
